@@ -149,6 +149,20 @@ func formsProg(r *h.Rand, fs formSet) *prog {
 
 func genFormsCases(r *h.Rand) []h.Case {
 	fs := genForms(r)
+	if r.Chance(12) {
+		// a SafeWriter command anywhere but last is an error in every spelling - also as the FIRST command of
+		// the pipeline (prefix and colon calls), whatever the stage after it does with its arguments
+		w := r.Pick([]string{"raw", "unsafe", "safeHtml", "safeJs"})
+		next := r.Pick([]string{"isset", "rec", "rec()", "stage(1, _)", "len", "upper", "ident"})
+		v := r.Pick([]string{`"a"`, `"<b>"`, "m3.Pre"})
+		fs = formSet{note: "writer-not-last " + w + " " + next, forms: []string{
+			v + " | " + w + " | " + next,
+			w + ": " + v + " | " + next,
+			w + "(" + v + ") | " + next,
+			v + " | ident | " + w + " | " + next,
+			w + "(" + v + ") | ident | " + next,
+		}}
+	}
 	p := formsProg(r, fs)
 	var cs []h.Case
 	meta := sx.L(sx.A("files"))
